@@ -302,3 +302,23 @@ PROPS["C05"] = dict(
     min_evaluations=dict(quick=3000, thorough=150000),
 )
 PROPS["C16"]["engines"].append(pbt("c01_roundtrip", libs=_W_LIBS, only="page_stats", name="c16_page_stats", quick=dict(cases=250, size=60, procs=4), thorough=dict(cases=5000, size=100, procs=8)))
+
+PROPS["C14"] = dict(
+    title="Page checksums are IEEE CRC-32 and page damage is always detected",
+    level="fault_enumeration",
+    design_ref="DESIGN.md section 8, C14",
+    level_text=("Fault enumeration: for generated files from carquet's writer (all codecs, nullable columns, several pages per chunk through small page sizes) and from the "
+                "reference writer (adds dictionary pages, CRC always present) the byte span of every page body is taken from the independent reader / writer manifest; every "
+                "single bit of every body up to 48 bytes (40 sampled bits for larger ones), byte XORs {01,80,FF} and bursts of 2..32 bits are applied to a copy, which is opened "
+                "in all three I/O modes with verify_checksums = true and read through the column reader (and, sampled, the batch reader): an error must be reported and only rows "
+                "stored before the damaged page may be delivered (none for a dictionary page). CRC-32 detects every burst <= 32 bits, so a clean read is a certain violation. The "
+                "undamaged copy must read without error; with verification disabled a sample of the damaged copies is read under ASan (memory safety only). The checksum function "
+                "itself is compared with zlib for every length 0..300 (thorough ..1030) x alignment 0..15, random buffers up to 1 MiB and multi-way incremental splits."),
+    level_note="exhaustive over bit positions only for bodies <= 48 bytes of the generated files; files and larger-body positions are sampled",
+    technique="fault injection enumerated over page-body bit positions (per generated file) + property-based testing of the CRC function against zlib",
+    rule=("damage case = (file, read batch size, seed); evaluations count damaged reads (file x damage x mode). Non-trivial: the file has a damaged page that is not the first "
+          "page of its chunk, or a dictionary page, or a compressed body. crc_fn case = (bytes, alignment, cut points); non-trivial: length >= 8 and not a multiple of 8."),
+    assumptions=["only pages that carry a CRC are damaged (carquet's writer always writes one)", "damage is confined to page bodies; headers and footer are out of this property's scope"],
+    engines=[pbt("c14_crc", libs=["rapidcheck", "snappy", "lz4"], quick=dict(cases=40, size=60, enum=1, procs=8), thorough=dict(cases=600, size=100, enum=2, procs=16))],
+    min_evaluations=dict(quick=100000, thorough=2000000),
+)
